@@ -22,7 +22,6 @@ impl ByteCompiler<'_> {
                 && let Some((finally_throw_flag, finally_throw_index)) = info.finally_throw
             {
                 actions.push(JumpRecordAction::HandleFinally {
-                    index: info.jumps.len() as u32,
                     finally_throw_flag,
                     finally_throw_index,
                 });
